@@ -217,6 +217,62 @@ def chooseSource (env : String → Option String) (pathExists : Bool) (c : Sourc
       if c.schemaPath ≠ "" then .ok (.path c.schemaPath)
       else .ok (.remote ⟨c.remoteUrl, hs, c.verifySsl, Tables.introspectionQueryFlags⟩)
 
+/-! ### the same decision, stage by stage
+
+`chooseSource` above states the end-to-end decision.  The code reaches it through four calls, and a value that is
+computed in one of them is *state* for the following ones (the settings object keeps the resolved headers):
+
+    settings = get_client_settings(config_dict)              -- BaseSettings.__post_init__ : resolves the headers ONCE
+    main.client / main.graphql_schema                        -- reads settings.schema_path / .remote_schema_url / ...
+      get_graphql_schema_from_url(url=, headers=, verify_ssl=)    -- passes its three arguments on, unchanged
+        introspect_remote_schema(url=, headers=, verify_ssl=)     -- passes them on to httpx.post, unchanged
+
+The stages are modelled separately so that each one is tied to the real function on its own (ops `urlcall`,
+`source`) and so that the theorems can say *where* `$ENV` substitution happens (in the first stage, once) and where
+it does not (below `main`: what `get_graphql_schema_from_url` is given is what is sent, `$` or not). -/
+
+/-- The fields of the settings object this property reads, after `__post_init__` (headers resolved). -/
+structure Settings where
+  schemaPath : String
+  remoteUrl : String
+  headers : List (String × String)
+  verifySsl : Bool
+  deriving Repr
+
+/-- `BaseSettings.__post_init__` (shared by `ClientSettings` and `GraphQLSchemaSettings`). -/
+def postInit (env : String → Option String) (pathExists : Bool) (c : SourceCfg) : Except CfgErr Settings :=
+  if c.schemaPath = "" ∧ c.remoteUrl = "" then .error .noSource
+  else if c.schemaPath ≠ "" ∧ !pathExists then .error .pathMissing
+  else
+    match resolveHeaders env c.headers with
+    | .error n => .error (.envMissing n)
+    | .ok hs => .ok ⟨c.schemaPath, c.remoteUrl, hs, c.verifySsl⟩
+
+/-- `introspect_remote_schema(url, headers, verify_ssl)`: the arguments of its one `httpx.post` call.
+    No environment, no settings: the function has neither. -/
+def introspectCall (url : String) (headers : List (String × String)) (verify : Bool) : PostCall :=
+  ⟨url, headers, verify, Tables.introspectionQueryFlags⟩
+
+/-- `get_graphql_schema_from_url(url, headers, verify_ssl)`: hands its arguments to `introspect_remote_schema`. -/
+def urlCall (url : String) (headers : List (String × String)) (verify : Bool) : PostCall :=
+  introspectCall url headers verify
+
+/-- The branch in `main.client` and in `main.graphql_schema` (the same expression in both). -/
+def mainSource (s : Settings) : Chosen :=
+  if s.schemaPath ≠ "" then .path s.schemaPath
+  else .remote (urlCall s.remoteUrl s.headers s.verifySsl)
+
+/-- the four calls in sequence -/
+def chooseSourceStaged (env : String → Option String) (pathExists : Bool) (c : SourceCfg) : Except CfgErr Chosen :=
+  match postInit env pathExists c with
+  | .error e => .error e
+  | .ok s => .ok (mainSource s)
+
+/-- A value of the *resolved* header list that a second `get_header_value` would not leave alone: it starts with `$`
+    (an environment value such as a crypt hash `$2y$10$...`, or the name of another variable).  Twin:
+    `harness/c19.py resolved_value_starts_with_dollar`; the directed search aims at it. -/
+def startsWithDollar (v : String) : Bool := v.toList.head? == some '$'
+
 /-- effective value of a flag of the introspection query: the keyword passed by ariadne-codegen,
     else graphql-core's default. -/
 def queryFlag (name : String) : Bool :=
